@@ -19,7 +19,8 @@ Case (JSON):
     ["sisub", i, via, src]  src additionally ["store", j]  (the graph of the other simple store)   ["sbin", op, i, j]
 
 After EVERY op the harness observes, for every graph: len, list(g), the 7 other pattern shapes obtained by
-wild-carding one pool triple, and `t in g` for every pool triple; the same lines are asked of the Lean model.
+wild-carding one pool triple, and `t in g` for every pool triple, and (default store) the store's union view
+len(store) / store.triples(pattern, None) for the 8 shapes; the same lines are asked of the Lean model.
 The property's own oracle is a Python dict graph -> set of triples, written from the statement.
 """
 import itertools
@@ -38,7 +39,7 @@ LEAN_TARGETS = ["RV.C01.Props", "RV.C01.Audit"]
 AUDIT = "RV/C01/Audit.lean"
 DRIVER = "drv_c01"
 N_ENUM = 11110  # histories of length 1..4 over an alphabet of 10 ops (2 triples x 2 graphs), thorough tier only
-CASES = {"quick": 420, "thorough": N_ENUM * 2 + 6000, "search": 6000}
+CASES = {"quick": 2000, "thorough": N_ENUM * 2 + 10000, "search": 6000}
 RULE = ("random histories (1-24 ops) of add/addN/remove(wildcards)/set/+=/-=/+ - * ^ through Graph objects (primary and "
         "equal-identifier twin) over one shared Memory (3 graphs) or two SimpleMemory stores, terms drawn from a vocabulary "
         "with falsy and look-alike terms in every position, up to 3 open triples() generators stepped between mutations; "
@@ -256,6 +257,11 @@ def _obs_plan(case, k):
             plan.append(("tri", g, pt))
         for t in pool:
             plan.append(("has", g, t))
+    if case["store"] == "mem":  # the store's union view (context None): len(store), store.triples(pattern, None)
+        plan.append(("ulen", None, None))
+        for pt in _shape_pats(probe):
+            plan.append(("utri", None, pt))
+        plan.append(("utri", None, list(probe)))
     return plan
 
 
@@ -307,6 +313,10 @@ def _obs_lines(case, k):
     for kind, g, x in _obs_plan(case, k):
         if kind == "len":
             out.append(f"{pre}len {g}")
+        elif kind == "ulen":
+            out.append("ulen")
+        elif kind == "utri":
+            out.append("utri " + " ".join(_w(v) for v in x))
         else:
             out.append(f"{pre}{kind} {g} " + " ".join(_w(v) for v in x))
     return out
@@ -453,6 +463,26 @@ def _apply(w, op, stats):
 
 def _observe(w, case, k, obs, viol):
     for kind, g, x in _obs_plan(case, k):
+        if kind in ("ulen", "utri"):
+            U = set().union(*w.sets.values())
+            try:
+                if kind == "ulen":
+                    n = len(w.mem)
+                    obs.append(str(n))
+                    if n != len(U):
+                        viol.append(f"union-len: after op {k} len(store) = {n}, the union of the graphs has {len(U)}")
+                else:
+                    got = [_ids(t) for t, _cg in w.mem.triples(tuple(_term(v) for v in x), None)]
+                    obs.append(_fmt(got))
+                    want = {t for t in U if _matches(x, t)}
+                    if len(got) != len(set(got)):
+                        viol.append(f"dup: after op {k} store.triples({x}, None) yields a triple twice")
+                    elif set(got) != want:
+                        viol.append(f"union-pattern: after op {k} store pattern {x} gave {sorted(got)} expected {sorted(want)}")
+            except Exception as e:  # noqa: BLE001
+                obs.append("raise:" + type(e).__name__)
+                viol.append(f"raise: union observation {kind} {x} after op {k} raised {type(e).__name__}: {e}")
+            continue
         go = w.objs[g][(k + g) % 2]
         S = w.sets[g]
         try:
